@@ -13,12 +13,15 @@ every range dominance had the scaling 0 and the projection returned NaN: F-C06-a
 Here `hsc` (and the length and direction side conditions) are PROVED for every configuration the
 model of `linear_lib.verify_hyperparameters` accepts (`Tfl.Verify.verifyLinear`, Model/Verify.lean,
 tied to the real `LinearConstraints.__init__` / `Linear.__init__` by the tables of C16):
-`Tfl.Verify.verifyLinear_scalings_ne_zero` (Lemmas/VerifyLinear.lean). What is left as hypotheses:
-* `Acyclic` of the dominance sets — the linear validation only rejects a pair together with its
-  reverse, longer cycles reach `_topological_sort` (the real code then raises `ValueError` at the
-  first projection);
-* `getM monos p.1 ≠ 0` for the range-dominance pairs — the validation demands equal non-zero
-  monotonicities but lets `None` entries through (`None == None`, `None != 0`).
+`Tfl.Verify.verifyLinear_scalings_ne_zero` (Lemmas/VerifyLinear.lean). The two hypotheses that were
+left in the first version are discharged too, because the validation now enforces them:
+* `Acyclic` of the dominance sets — `Tfl.Verify.verifyLinear_acyclic`: since fix 2ef7ec2 the linear
+  validation runs the round-based cycle check (`kahnAcyclic`, sound by Lemmas/Kahn.lean) on both
+  dominance sets (it used to reject only a pair together with its reverse: F-C16-u);
+* the range-dominance dimensions carry a monotonicity `±1` — `Tfl.Verify.verifyLinear_hdir`: since
+  fix 1f0b06a a `None` entry is rejected like 0 (F-C16-x).
+What remains are the shape of the column (one entry per input) and, for the stage theorem, the
+signs of its input column (the output of the preceding stages).
 -/
 namespace Tfl.C06
 open Tfl Tfl.Poset Tfl.Linear Tfl.Verify
@@ -34,14 +37,15 @@ theorem accepted_scalings (nid : Option Nat) (mv mdv rdv iminv imaxv : Val) (c :
   exact verifyLinear_scalings_ne_zero h k hk
 
 /-- **C06 (Linear, range dominance) for accepted configurations.** For every configuration accepted
-by the constructor model with a non-empty acyclic range-dominance set whose dimensions carry a
-monotonicity, and every column `w2` with one entry per input that has the configured signs (the
-output of the sign / monotonic-dominance stages), the range-dominance stage of `project` does not
-raise; after un-scaling every `(dominant, weak)` pair satisfies the scaled inequality, the signs
-survive and the inputs outside the pairs keep their value. No hypothesis on the scalings. -/
+by the constructor model with a non-empty range-dominance set, and every column `w2` with one entry
+per input that has the configured signs (the output of the sign / monotonic-dominance stages), the
+range-dominance stage of `project` does not raise; after un-scaling every `(dominant, weak)` pair
+satisfies the scaled inequality, the signs survive and the inputs outside the pairs keep their
+value. No hypothesis on the scalings, on cycles or on the monotonicities: all are consequences of
+acceptance. -/
 theorem accepted_range_dominance (nid : Option Nat) (mv mdv rdv iminv imaxv : Val) (c : LinCfg)
     (h : verifyLinear nid mv mdv rdv iminv imaxv = .ok c)
-    (hne : c.rd ≠ []) (hacyc : Acyclic c.rd) (hmono : ∀ p ∈ c.rd, getM c.monos p.1 ≠ 0)
+    (hne : c.rd ≠ [])
     (w2 : List Rat) (hlen : w2.length = c.monos.length)
     (hsign : ∀ k, SignOk (getM c.monos k) (getV w2 k)) :
     let sc := scalings c.monos c.rd c.los c.his
@@ -51,8 +55,8 @@ theorem accepted_range_dominance (nid : Option Nat) (mv mdv rdv iminv imaxv : Va
       (∀ k, ¬ IsNode c.rd k → getV (divV w3 sc) k = getV w2 k) := by
   intro sc
   obtain ⟨hl, hsc⟩ := accepted_scalings nid mv mdv rdv iminv imaxv c h
-  refine linear_range_dominance_acyclic c.monos c.rd sc w2 hne hacyc ?_ (by rw [hlen, hl]) hsc
-    (verifyLinear_hdir h hmono) hsign
+  refine linear_range_dominance_acyclic c.monos c.rd sc w2 hne (verifyLinear_acyclic h).2 ?_ (by rw [hlen, hl]) hsc
+    (verifyLinear_hdir h) hsign
   rintro a ⟨p, hp, e | e⟩
   · rw [hlen, ← e]; exact (verifyLinear_range h hp (Or.inl rfl)).1
   · rw [hlen, ← e]; exact (verifyLinear_range h hp (Or.inr rfl)).1
@@ -60,11 +64,10 @@ theorem accepted_range_dominance (nid : Option Nat) (mv mdv rdv iminv imaxv : Va
 /-- **C06 feasible ⇒ unchanged (Linear, before normalisation) for accepted configurations**: a
 column with one entry per input that already has the configured signs and satisfies every
 monotonic- and (scaled) range-dominance pair is returned unchanged by `projectPre` — in particular
-the un-scaling `divV (mulV w sc) sc` is exact, which needs every scaling non-zero: proved from
-acceptance. -/
+the un-scaling `divV (mulV w sc) sc` is exact, which needs every scaling non-zero, and neither
+topological sort raises, which needs both dominance sets acyclic: all proved from acceptance. -/
 theorem accepted_fixpoint (nid : Option Nat) (mv mdv rdv iminv imaxv : Val) (c : LinCfg)
     (h : verifyLinear nid mv mdv rdv iminv imaxv = .ok c)
-    (hamd : Acyclic c.md) (hard : Acyclic c.rd)
     (w : List Rat) (hlen : w.length = c.monos.length)
     (hsign : ∀ k, SignOk (getM c.monos k) (getV w k))
     (hmd : ∀ p ∈ c.md, getV w p.2 ≤ getV w p.1)
@@ -72,7 +75,8 @@ theorem accepted_fixpoint (nid : Option Nat) (mv mdv rdv iminv imaxv : Val) (c :
                         getV (scalings c.monos c.rd c.los c.his) p.1 * getV w p.1) :
     projectPre c.monos c.md c.rd c.los c.his w = .ok w := by
   obtain ⟨hl, hsc⟩ := accepted_scalings nid mv mdv rdv iminv imaxv c h
-  exact linear_fixpoint_acyclic c.monos c.md c.rd c.los c.his w hamd hard hsign hmd (by rw [hlen, hl]) hsc hrd
+  exact linear_fixpoint_acyclic c.monos c.md c.rd c.los c.his w (verifyLinear_acyclic h).1 (verifyLinear_acyclic h).2
+    hsign hmd (by rw [hlen, hl]) hsc hrd
 
 /-- the same for the constraints class `LinearConstraints.__init__` -/
 theorem accepted_scalings_constraints (r : RawLinC) (c : LinCfg) (h : linearConstraints r = .ok c) :
